@@ -59,6 +59,10 @@ def pool():
         Ok(I(1)), Err(I(1)), Ok(S("a")), Err(S("a")), Ok(Some(I(1))), Ok(UNIT), Ok(F("1.5")),
         ST("Foo", ("f", I(1)), ("g", S("a"))), ST("Foo", ("f", I(2)), ("g", S("a"))), ST("Foo", ("f", I(1)), ("g", S("b"))), ST("Bar", ("f", I(1)), ("g", S("a"))),
         ST("Pt", ("v", F("1.5"))), ST("Pt", ("v", F("2.5"))),
+        # dicts whose values have different inferred types, in both insertion orders (the value type a dict carries
+        # must not take part in equality)
+        D(("a", L()), ("b", L(I(1)))), D(("b", L(I(1))), ("a", L())), D(("j", Some(I(2))), ("k", NONE)), D(("k", NONE), ("j", Some(I(2)))),
+        D(("a", L(L())), ("b", L(L(I(1))))), D(("b", L(L(I(1)))), ("a", L(L()))), L(D(("a", L()), ("b", L(I(1))))), L(D(("b", L(I(1))), ("a", L()))),
         RED, GREEN, Cust(I(1)), Cust(I(2)), Other(I(1)),
         L(RED), Some(RED), T(RED, I(1)), L(ST("Foo", ("f", I(1)), ("g", S("a")))), Some(ST("Pt", ("v", F("1.5")))),
     ]
@@ -70,6 +74,8 @@ def pool():
         computed("[1, 2].filter(fun(x: Int) { x < 2 })", L(I(1))), computed("[1].filter(fun(x: Int) { x > 1 })", L()), computed('["a"].filter(fun(x: String) { x == "b" })', L()),
         computed("[1].first()", Some(I(1))), computed("[1].get(5)", NONE),
         computed("[1, 2].slice(0, 0)", L()), computed("[1, 2].slice(0, 1)", L(I(1))), computed("[[1, 2].slice(0, 0)]", L(L())),
+        computed('Dict["x" => 1].remove("x")', D()), computed('Dict[].set("a", 1)', D(("a", I(1)))), computed('Dict["a" => 1].set("b", 2)', D(("a", I(1)), ("b", I(2)))),
+        computed('Dict["a" => [1], "b" => []].remove("a")', D(("b", L()))), D(("b", L())),
         Some(L()), computed("Some([1, 2].slice(0, 0))", Some(L())), ST("Bx", ("f", L())), computed("Bx{ f: [1, 2].slice(0, 0) }", ST("Bx", ("f", L()))),
     ]
     return P
